@@ -14,6 +14,20 @@ Line kinds
                                          same working directory do): `pre` = files that exist before the first run; before every run the
                                          trace is cleared; after its prove() the directory is read, and the same trace is also exported
                                          into a fresh empty directory; reply: id|ok|p|<json [{"trace", "files", "fresh"}, ...]>
+  JF|id|p|<json {"runs": [{"pub", "priv", "cons", "fault": null | {"kind": ..., "name": ...}}, ...]}>
+                                         independent runs in ONE process, each in its own fresh directory; a run with a `fault` meets an
+                                         obstacle at the WRITE stage of prove(): kind `directory-in-the-way` (a directory called `name`
+                                         where the file is to be written), `dangling-link` (`name` is a symbolic link into a directory that
+                                         does not exist), `directory-removed` (the working directory is deleted before prove()); prove()
+                                         is expected to raise there and the caller carries on (what a notebook / a retry loop does); the
+                                         runs after it are judged like any other export; reply: id|ok|p|<json [{"trace", "files"}, ...]>
+  JM|id|p0|<json {"pub": [...], "priv": [...], "cons": [[lc, lc, lc], ...], "fields": [q, ...], "how": "set_modulus" | "import"}>
+                                         ONE trace exported under SEVERAL fields in one process: the trace is built with the field p0
+                                         current, every lc = [[sign, wire, coefficient], ...] is computed with the backend's own
+                                         LinearCombination algebra from the objects pubval()/privval()/one() returned (wire * coefficient,
+                                         then `+` / `-` / unary minus in the order given), then for every q of `fields` the field is
+                                         switched (zkinterface: set_modulus(q), or importing/reloading the field module that does it;
+                                         snarkjs: snarkjsp) and prove() called in a fresh directory; reply: id|ok|p0|<json [{"p", "files"}, ...]>
 A file that prove() did not (re)write is simply absent from / unchanged in the reply: judging that is the check's business."""
 import sys, os, io, json, tempfile, shutil, contextlib
 sys.path.insert(0, os.path.dirname(os.path.abspath(__file__)))
@@ -29,8 +43,11 @@ def trace_str():
 
 def read_dir(d):
     out = {}
+    if not os.path.isdir(d):
+        return out
     for f in sorted(os.listdir(d)):
-        out[f] = open(os.path.join(d, f), "rb").read().hex()
+        if os.path.isfile(os.path.join(d, f)):       # obstacles put there by a JF fault (directories, dangling links) are not output
+            out[f] = open(os.path.join(d, f), "rb").read().hex()
     return out
 
 
@@ -58,6 +75,68 @@ def prove_here():
         return prove_in(d)
     finally:
         shutil.rmtree(d, ignore_errors=True)
+
+
+def prove_with_fault(fault):
+    """a run whose prove() meets an obstacle at the write stage (JF lines); the obstacle is gone with the run's directory"""
+    d = tempfile.mkdtemp(prefix="verif-prove-")
+    try:
+        if fault:
+            kind, name = fault["kind"], fault.get("name", "")
+            if kind == "directory-in-the-way":
+                os.mkdir(os.path.join(d, name))
+            elif kind == "dangling-link":
+                os.symlink(os.path.join(d, "no-such-directory", name), os.path.join(d, name))
+            elif kind == "directory-removed":
+                sub = os.path.join(d, "gone"); os.mkdir(sub)
+                cwd = os.getcwd(); os.chdir(sub); os.rmdir(sub)
+                try:
+                    raised = None
+                    with contextlib.redirect_stderr(io.StringIO()), contextlib.redirect_stdout(io.StringIO()):
+                        try:
+                            B.prove()
+                        except Exception as e:
+                            raised = f"{type(e).__name__}: {e}"
+                finally:
+                    os.chdir(cwd)
+                out = read_dir(sub)
+                if raised is not None:
+                    out["!raised"] = raised.encode().hex()
+                return out
+            else:
+                raise ValueError("unknown fault " + kind)
+        return prove_in(d)
+    finally:
+        shutil.rmtree(d, ignore_errors=True)
+
+
+def switch_field(q, how):
+    """make q the current field the way an application would"""
+    name = B.__name__
+    if name.startswith("pysnark.zkinterface") and how == "import":
+        import importlib
+        mod = {52435875175126190479447740508185965837690552500527637822603658699938581184513: "pysnark.zkinterface.backendbellman",
+               7237005577332262213973186563042994240857116359379907606001950938285454250989: "pysnark.zkinterface.backendbulletproofs"}.get(q)
+        if mod:
+            if mod in sys.modules and sys.modules[mod] is not B:
+                importlib.reload(sys.modules[mod])       # the module body is what calls set_modulus
+            elif mod not in sys.modules:
+                importlib.import_module(mod)
+            if B.get_modulus() == q:
+                return
+    W.set_modulus(q)
+
+
+def build_lc(spec, wires):
+    """[[sign, wire, coefficient], ...] through the backend's LinearCombination operators"""
+    acc = None
+    for sign, k, c in spec:
+        t = wires[int(k)] * int(c)
+        if acc is None:
+            acc = t if int(sign) > 0 else -t
+        else:
+            acc = acc + t if int(sign) > 0 else acc - t
+    return acc if acc is not None else B.zero()
 
 
 def install(pubs, privs, cons):
@@ -116,6 +195,32 @@ def main():
                 finally:
                     shutil.rmtree(d, ignore_errors=True)
                 out = f"{f[1]}|ok|{B.get_modulus()}|" + json.dumps(res)
+            elif f[0] == "JF":         # runs in one process, some of which fail at the write stage
+                spec = json.loads(line.rstrip("\n").split("|", 3)[3])
+                res = []
+                for st in spec["runs"]:
+                    W.reset({"p": int(f[2])})
+                    install(st.get("pub", []), st.get("priv", []), st.get("cons", ""))
+                    res.append({"trace": trace_str(), "files": prove_with_fault(st.get("fault"))})
+                out = f"{f[1]}|ok|{B.get_modulus()}|" + json.dumps(res)
+            elif f[0] == "JM":         # one trace, built with the backend's LC algebra, exported under several fields
+                spec = json.loads(line.rstrip("\n").split("|", 3)[3])
+                W.reset({"p": int(f[2])})
+                wires = {0: B.one()}
+                for i, x in enumerate(spec["pub"]):
+                    wires[i + 1] = B.pubval(int(x))
+                for i, x in enumerate(spec["priv"]):
+                    wires[-(i + 1)] = B.privval(int(x))
+                for c in spec["cons"]:
+                    B.add_constraint(*[build_lc(l, wires) for l in c])
+                res = []
+                try:
+                    for q in spec["fields"]:
+                        switch_field(int(q), spec.get("how", "set_modulus"))
+                        res.append({"p": B.get_modulus(), "files": prove_here()})
+                finally:
+                    W.set_modulus(int(f[2]))
+                out = f"{f[1]}|ok|{f[2]}|" + json.dumps(res)
             else:
                 out = "bad-line"
         except BaseException as e:
